@@ -3,3 +3,4 @@ C10 from tokens upward (Props/C10.lean) and from the characters of a printed tem
 -/
 import Verif.Props.C10
 import Verif.Props.C10Text
+import Verif.Props.ClauseExamples
